@@ -181,6 +181,7 @@ func NewRun(opt Options, init InitTree, wrapRemote func(filesystem.Filespace) fi
 		return nil, err
 	}
 	r.Subj = mfs.NewSubject(r.Cache)
+	r.Subj.Scribble = true // the caller reuses the buffers it handed in, and overwrites what it got back, right after each call
 	return r, nil
 }
 
